@@ -27,11 +27,21 @@ RequestEv(e) ==
     /\ Clause("training-pair-appended-in-order", e.pair_ok)
     /\ Clause("retrained-exactly-at-every-train-step", e.trains = trains')
     /\ Clause("trained-flag", e.trained = trained')
+\* a true evaluation that FAILS (the objective raises; Job.evaluate will retry with another design): the objective was called, but nothing was
+\* answered -- no counter moves, nothing joins the training set, no training happens
+FailedEv(e) ==
+    /\ Clause("failure-is-the-objective's", e.exc # "")
+    /\ Clause("failed-evaluation-not-counted", e.evalcnt = ec /\ e.predcnt = pc)
+    /\ Clause("failed-evaluation-adds-no-training-pair", mode = "predict" => e.ndata = Len(xs))
+    /\ Clause("failed-evaluation-trains-nothing", e.trains = trains /\ e.trained = trained)
+    /\ objcalls' = objcalls + 1
+    /\ UNCHANGED <<ts, mode, trained, ec, pc, xs, trains, nreq, lastkind>>
 TInit == tid \in 1..Len(Traces) /\ l = 1 /\ ts = 0 /\ mode = "predict" /\ trained = FALSE
          /\ ec = 0 /\ pc = 0 /\ xs = <<>> /\ trains = 0 /\ objcalls = 0 /\ nreq = 0 /\ lastkind = "none"
 TNext == /\ l <= Len(Traces[tid])
          /\ CASE Ev.ev = "config"  -> ConfigEv(Ev)
               [] Ev.ev = "request" -> RequestEv(Ev)
+              [] Ev.ev = "failed"  -> FailedEv(Ev)
               [] OTHER -> Clause("known-event", FALSE) /\ UNCHANGED vars
          /\ l' = l + 1 /\ UNCHANGED tid
 TDone == l = Len(Traces[tid]) + 1
